@@ -371,6 +371,11 @@ class Stub:
             elif g == "psutil":
                 if co in FRONT_RECHECK:
                     c.recheck = co
+                if co == "_send_signal" and c.name == "os.kill":
+                    # the one OS call the front end issues itself on POSIX (its error handling has platform-conditional steps)
+                    c.in_method = True
+                    c.method = c.method or "_send_signal"
+                    c.site = c.site or "_send_signal"
             elif g in ("genericpath", "posixpath") and co in PATH_PREDICATES:
                 c.predicate = co
             f = f.f_back
